@@ -131,10 +131,25 @@ def extraAt (f : Fn) (pc : Nat) : Nat :=
   | some c => c.extra
   | none => 0
 
+/-- no offset listed twice -/
+def distinctOffsets : List Int → Bool
+  | [] => true
+  | a :: r => !r.contains a && distinctOffsets r
+
+/-- the two words of every interior entry (pointer at `o`, object base at `o + 8`) are words of no ordinary reference slot
+and of no other interior entry: a map that names one stack word twice, or an interior pair on top of a live reference,
+makes a moving collection rewrite that word twice / with a bogus base -/
+def interiorDisjoint (offs interior : List Int) : Bool :=
+  interior.all (fun o => !offs.contains o && !offs.contains (o + 8)) &&
+  distinctOffsets interior &&
+  interior.all (fun o => !interior.contains (o + 8))
+
 def gcpointOK (f : Fn) (g : GcPoint) : Bool :=
   decide (g.pc ≤ f.stop - f.start) &&
   g.offsets.all (slotOK f.frame (extraAt f g.pc)) &&
-  g.interior.all (interiorOK f.frame (extraAt f g.pc))
+  g.interior.all (interiorOK f.frame (extraAt f g.pc)) &&
+  distinctOffsets g.offsets &&
+  interiorDisjoint g.offsets g.interior
 
 /-- the runtime looks the return address of such a call up in the code map: a collection walking the suspended frame
 (`needsMap`) or the trap / stack-overflow handler naming the failing function -/
@@ -178,7 +193,11 @@ def explain (a : Artifact) : String :=
         else if !strictlyIncreasing (f.gcps.map (·.pc)) then "gcpoint table not strictly increasing"
         else if !f.gcps.all (gcpointOK f) then
           match f.gcps.find? (fun g => !gcpointOK f g) with
-          | some g => s!"gcpoint at {g.pc}: slot outside frame/unaligned/non-negative or pc outside function (frame {f.frame}, extra {extraAt f g.pc}, offsets {g.offsets}, interior {g.interior})"
+          | some g =>
+            if !distinctOffsets g.offsets || !interiorDisjoint g.offsets g.interior then
+              s!"gcpoint at {g.pc}: a stack word is named twice (offsets {g.offsets}, interior pairs {g.interior})"
+            else
+              s!"gcpoint at {g.pc}: slot outside frame/unaligned/non-negative or pc outside function (frame {f.frame}, extra {extraAt f g.pc}, offsets {g.offsets}, interior {g.interior})"
           | none => "gcpoint"
         else if !f.calls.all (callOK f) then
           match f.calls.find? (fun c => !callOK f c) with
